@@ -47,6 +47,8 @@ def apalache_facts(ctx):
                 apalache_control_refuted=True)
 
 def run(ctx):
+    from props import net as _net
+    _net.maybe_replay(ctx, LEVEL)
     binp = ctx.go_build("./cmd/c07")
     tables = ctx.path("tables.txt")
     with open(tables, "w") as fh:
@@ -72,6 +74,12 @@ def run(ctx):
     # unbounded: the same algebraic facts for ALL natural field values, discharged by Apalache (SMT); a control with one
     # comparison of the operational form weakened must produce a counterexample (the obligation is not vacuous)
     apa = apalache_facts(ctx)
+    # classification depends on the receive times the node remembers across steps: fixed multi-node sequences
+    from props import net
+    nfixed, fv = net.run_fixed(ctx)
+    for v in fv:
+        ctx.violation("forkchoice-sequence:" + v["key"], "%s: %s" % (v["script"], v["what"]), v.get("replay"))
+    apa["fork_choice_sequences_replayed"] = nfixed
     # chain-level rule through the real liskbft.Module: IsHeaderContradictingChain probes in the BFT trace
     b2 = ctx.go_build("./cmd/c02")
     chains = 300 if ctx.tier == "quick" else 3000
